@@ -19,11 +19,11 @@
 (* identities, the identity of one path that achieves it (ties: any), and  *)
 (* that identity's senone sequence.                                        *)
 (*                                                                         *)
-(* Layer B: the four evaluation routines transcribed statement by          *)
-(* statement (Variant): the unrolled 3-state left-to-right routine, its    *)
-(* multiplexed twin, and the general-topology routine with and without     *)
-(* multiplexing.  (The 5-state routines are bound by trace validation      *)
-(* against Layer A only.)                                                  *)
+(* Layer B: the evaluation routines transcribed statement by statement     *)
+(* (Variant): the unrolled 3-state left-to-right routine, its multiplexed  *)
+(* twin, the unrolled 5-state routine, and the general-topology routine    *)
+(* with and without multiplexing.  (The multiplexed 5-state routine is     *)
+(* bound by trace validation against Layer A only.)                        *)
 (*                                                                         *)
 (* FixT2 = FALSE is the code as it was: the scratch variable t2 is given   *)
 (* the value "no skip transition" once, before the exit state is           *)
@@ -36,7 +36,7 @@ EXTENDS Integers, FiniteSets, Sequences, TLC
 CONSTANTS N,          \* number of emitting states
           Worst,      \* WORST_SCORE
           NoTr,       \* TMAT_WORST_SCORE: this value in the matrix means "no transition"
-          Variant,    \* "lr3" | "lr3mpx" | "any" | "anympx"
+          Variant,    \* "lr3" | "lr3mpx" | "lr5" | "any" | "anympx"
           FixT2,      \* BOOLEAN, see above
           TPSet,      \* the transition matrices: [0..N-1 -> [0..N -> Int]] (values <= 0)
           K,          \* number of senone sequences (1 unless multiplexed)
@@ -140,6 +140,52 @@ Lr3Mpx(sen) ==
       ss |-> [i \in St |-> CASE i = 2 -> ss[pick] [] i = 1 -> (IF keep1 THEN ss[1] ELSE ss[0]) [] OTHER -> ss[0]],
       bs |-> Max2(Max2(s3, n2), Max2(n1, n0))]
 
+(* hmm_vit_eval_5st_lr: the Sphinx-2 topology, every state with a self loop, a step and a skip; the routine adds
+   whatever score the matrix holds for them (it never tests for "no transition") *)
+Lr5(sen) ==
+  LET s4 == sc[4] + Sen1(sen, 4)
+      s3 == sc[3] + Sen1(sen, 3)
+      exitOn == s3 > Worst
+      x1 == s4 + tp[4][5]
+      x2 == s3 + tp[3][5]
+      fromFour == x1 > x2
+      s5 == Clamp(IF fromFour THEN x1 ELSE x2)
+      s2 == sc[2] + Sen1(sen, 2)
+      on4 == s2 > Worst
+      a0 == s4 + tp[4][4]
+      a1 == s3 + tp[3][4]
+      a2 == s2 + tp[2][4]
+      pick4 == IF a0 > a1 THEN (IF a2 > a0 THEN 2 ELSE 4) ELSE (IF a2 > a1 THEN 2 ELSE 3)
+      n4 == IF on4 THEN Clamp(CASE pick4 = 2 -> a2 [] pick4 = 3 -> a1 [] OTHER -> a0) ELSE sc[4]
+      s1 == sc[1] + Sen1(sen, 1)
+      on3 == s1 > Worst
+      b0 == s3 + tp[3][3]
+      b1 == s2 + tp[2][3]
+      b2 == s1 + tp[1][3]
+      pick3 == IF b0 > b1 THEN (IF b2 > b0 THEN 1 ELSE 3) ELSE (IF b2 > b1 THEN 1 ELSE 2)
+      n3 == IF on3 THEN Clamp(CASE pick3 = 1 -> b2 [] pick3 = 2 -> b1 [] OTHER -> b0) ELSE sc[3]
+      s0 == sc[0] + Sen1(sen, 0)
+      c0 == s2 + tp[2][2]
+      c1 == s1 + tp[1][2]
+      c2 == s0 + tp[0][2]
+      pick2 == IF c0 > c1 THEN (IF c2 > c0 THEN 0 ELSE 2) ELSE (IF c2 > c1 THEN 0 ELSE 1)
+      n2 == Clamp(CASE pick2 = 0 -> c2 [] pick2 = 1 -> c1 [] OTHER -> c0)
+      d0 == s1 + tp[1][1]
+      d1 == s0 + tp[0][1]
+      keep1 == d0 > d1
+      n1 == Clamp(IF keep1 THEN d0 ELSE d1)
+      n0 == Clamp(s0 + tp[0][0])
+      b5 == IF exitOn THEN s5 ELSE Worst
+      b4 == IF on4 /\ n4 > b5 THEN n4 ELSE b5
+      b3 == IF on3 /\ n3 > b4 THEN n3 ELSE b4
+  IN [sc |-> [i \in St |-> CASE i = 0 -> n0 [] i = 1 -> n1 [] i = 2 -> n2 [] i = 3 -> n3 [] OTHER -> n4],
+      hi |-> [i \in St |-> CASE i = 4 -> (IF on4 THEN hi[pick4] ELSE hi[4]) [] i = 3 -> (IF on3 THEN hi[pick3] ELSE hi[3])
+                               [] i = 2 -> hi[pick2] [] i = 1 -> (IF keep1 THEN hi[1] ELSE hi[0]) [] OTHER -> hi[0]],
+      out |-> IF exitOn THEN s5 ELSE out,
+      outh |-> IF exitOn THEN (IF fromFour THEN hi[4] ELSE hi[3]) ELSE outh,
+      ss |-> ss,
+      bs |-> Max2(Max2(b3, n2), Max2(n1, n0))]
+
 (* hmm_vit_eval_anytopo: candidates scanned from the state below down to state 0, strictly better wins *)
 RECURSIVE Scan(_, _, _, _, _)
 Scan(st, to, from, scr, bf) ==
@@ -159,7 +205,7 @@ AnyTopo(sen) ==
       ss |-> [to \in St |-> IF Mpx /\ r[to][2] >= 0 THEN ss[r[to][2]] ELSE ss[to]],
       bs |-> mx]
 
-Evaluated(sen) == CASE Variant = "lr3" -> Lr3(sen) [] Variant = "lr3mpx" -> Lr3Mpx(sen) [] OTHER -> AnyTopo(sen)
+Evaluated(sen) == CASE Variant = "lr3" -> Lr3(sen) [] Variant = "lr3mpx" -> Lr3Mpx(sen) [] Variant = "lr5" -> Lr5(sen) [] OTHER -> AnyTopo(sen)
 
 ---------------------------------------------------------------------------
 Cleared == /\ sc = [i \in St |-> Worst] /\ hi = [i \in St |-> -1] /\ out = Worst /\ outh = -1 /\ bs = Worst
